@@ -128,7 +128,9 @@ func (s *Sess) heapKeyField(sn string, st *types.Struct, i int) string {
 		hs := "(Array Int " + s.sortOf(st.Field(i).Type()) + ")"
 		s.heapSort[k] = hs
 		s.heapOwner[k] = "next_" + sortID(sn)
+		s.heapElemT[k] = st.Field(i).Type()
 		s.funDecl = append(s.funDecl, fmt.Sprintf("(declare-const %s_0 %s)", k, hs))
+
 	}
 	return k
 }
@@ -140,6 +142,8 @@ func (s *Sess) heapKeyPlain(t types.Type) string {
 		hs := "(Array Int " + srt + ")"
 		s.heapSort[k] = hs
 		s.heapOwner[k] = "next_" + sortID(srt)
+		s.heapElemT[k] = t
+
 		s.funDecl = append(s.funDecl, fmt.Sprintf("(declare-const %s_0 %s)", k, hs))
 	}
 	return k
